@@ -24,6 +24,8 @@ mod filter_map;
 pub mod lexer;
 pub mod meta;
 mod precedence;
+#[cfg(nlnetlabs_roto_verif)]
+pub use precedence::Associativity as VerifAssociativity;
 mod signature;
 pub mod token;
 
